@@ -69,6 +69,54 @@ def near_boundary(vals, bounds, tol=1e-6):
     return any(np.any(np.abs(vals - b) <= tol * max(1.0, abs(b))) for b in bounds)
 
 
+def boundary_stream(ctx, navis, rng, tabs):
+    """distances and dot products EXACTLY on bin boundaries (and just inside the outer bins): the half-open side of the intervals
+    decides the cell.  Points are 1000 apart along x so that every query point's nearest target point is its partner."""
+    exprs, follow = [], []
+    for ci in range(ctx.n(16, 160)):
+        kind = str(rng.choice(['fcwb', 'custom-right', 'custom-left']))
+        if kind == 'fcwb':
+            db, tb, right, cells = tabs['fcwb']
+            smat_arg, sm_term = 'auto', 'fcwb'
+        else:
+            right = kind == 'custom-right'
+            db = sorted(float(v) for v in rng.choice(np.arange(1, 40) * 0.5, size=4, replace=False))
+            tb = sorted(float(v) for v in rng.choice(np.arange(1, 16) * 0.0625, size=3, replace=False))
+            cells = (rng.normal(size=(5, 4)).round(3) + 2).tolist()
+            lab = (lambda a, b: '(%r,%r]' % (a, b)) if right else (lambda a, b: '[%r,%r)' % (a, b))
+            de = [0.0] + list(db) + [1000.0]; te = [0.0] + list(tb) + [1.0]
+            smat_arg = pd.DataFrame(cells, index=[lab(a, b) for a, b in zip(de[:-1], de[1:])], columns=[lab(a, b) for a, b in zip(te[:-1], te[1:])])
+            sm_term = '{| dist_b := %s; dot_b := %s; sm_right := %s; sm_cells := %s |}' % (
+                term([Fraction(b) for b in db]), term([Fraction(b) for b in tb]), term(right), term([[Fraction(float(c)) for c in r] for r in cells]))
+        n = int(rng.integers(3, 12))
+        dvals = [float(v) for v in rng.choice(list(db) + [0.0, float(db[-1]) * 4], size=n)]
+        tvals = [float(v) for v in rng.choice(list(tb) + [0.0, 1.0], size=n)]
+        qp = np.array([[1000.0 * i, 0.0, 0.0] for i in range(n)])
+        tp = np.array([[1000.0 * i, dvals[i], 0.0] for i in range(n)])
+        qv = np.tile([1.0, 0.0, 0.0], (n, 1))
+        tv = np.array([[tvals[i], 0.0, 1.0] for i in range(n)])      # |<qv, tv>| = tvals[i] exactly (vectors are used as given)
+        q = navis.Dotprops(qp, k=None, vect=qv, alpha=np.ones(n), units='1 micron'); q.id = 1
+        t = navis.Dotprops(tp, k=None, vect=tv, alpha=np.ones(n), units='1 micron'); t.id = 2
+        d, dots, amb = oracle(q, t, False, None)
+        desc = dict(stream='boundary', table=kind, right_closed=bool(right), dist=dvals, dot=tvals)
+        ctx.case(('boundary', kind, str(dvals), str(tvals)), nontrivial=True, sample=desc if ci < 2 else None)
+        ctx.count('boundary:' + kind)
+        if [float(x) for x in d] != dvals or [float(x) for x in dots] != tvals:
+            ctx.count('skipped:boundary-not-exact')
+            continue
+        st, m = guarded(navis.nblast, q, t, scores='forward', normalized=False, use_alpha=False, smat=smat_arg, n_cores=1, progress=False)
+        if st != 'ok':
+            ctx.violation('nblast raised on the boundary stream', desc, m)
+            continue
+        exprs.append('qout (raw_score (%s) %s)' % (sm_term, term([(Fraction(a), Fraction(b)) for a, b in zip(dvals, tvals)])))
+        follow.append((desc, float(np.asarray(m.values if hasattr(m, 'values') else m).ravel()[0])))
+    out = coqio.eval_terms('C06b', ['model.Dist', 'model.Nblast', 'gen.Gen_Smat', 'proofs.NblastProofs'], exprs, shard=120) if exprs else []
+    for (desc, got), (a, b) in zip(follow, out):
+        want = float(Fraction(a, b))
+        if abs(got - want) > 1e-9 * max(1.0, abs(want)):
+            ctx.violation('a distance / dot product exactly on a bin boundary selects the wrong cell (half-open side of the intervals)', desc, dict(impl=got, model=want))
+
+
 def run(ctx):
     import navis
     from translate import smat as tsm
@@ -80,6 +128,7 @@ def run(ctx):
     for name, fn in (('fcwb', 'smat_fcwb.csv'), ('fcwb_alpha', 'smat_alpha_fcwb.csv')):
         db, tb, right, cells = tsm.table(fn)
         tabs[name] = (db, tb, right, [[float(c) for c in r] for r in cells])
+    boundary_stream(ctx, navis, rng, tabs)
     jobs = []
     for ci in range(N):
         dps = mk_dps(rng, int(rng.integers(1, 5)))
